@@ -1,6 +1,6 @@
 (* C16 — packed length encoding and fixed-width integers are exact for every value.
    Statements only; proofs in SevenBit.v, BaseFacts.v, PrimFacts.v, ObjFacts.v. *)
-From Sbdf Require Import Imp Gen.Prog ImpFacts ImpFacts7.
+From Sbdf Require Import ImpCall Gen.Prog ImpFacts ImpFacts7 ImpFactsFrame.
 From Sbdf Require Import Prim BaseFacts PrimFacts SevenBit Obj ObjFacts LeafTie.
 From Coq Require Import List.
 From Sbdf.Gen Require Import Leaf.
@@ -80,3 +80,24 @@ Example C16_source_runs :
     = Some (VInt 0, Some (VInt 300), [9]) /\
   (match call_io 100 prog_sbdf_read_7bitpacked_int32 [VNull; VNull] [255; 255; 255; 255; 255; 9] 0 with OReturn v _ => Some v | _ => None end) = Some (VInt SBDF_ERROR_INVALID_SIZE).
 Proof. repeat split; vm_compute; reflexivity. Qed.
+
+(* 32-bit integers from the source (default, little-endian configuration): sbdf_read_int32 and
+   sbdf_write_int32 of src/internals.c, translated with their call of sbdf_swap (whose body is empty
+   in this configuration, C17_source_swap_default).  The reader equals the model's read_int32 on
+   every byte stream; the writer has the first `budget` bytes of le32 v accepted, OK iff all four. *)
+Theorem C16_source_int32_reader : forall s B, Forall byte s ->
+  exists f0, forall f, (f0 <= f)%nat ->
+  match read_int32 false s with
+  | Ok (x, s') => exists fin, callE prog_env f prog_sbdf_read_int32 [tok; tok] s B = OReturn (VInt SBDF_OK) fin /\
+                              lookup "*v" (vars fin) = Some (VInt x) /\ inb fin = s' /\ outb fin = []
+  | Err st => exists fin, callE prog_env f prog_sbdf_read_int32 [tok; tok] s B = OReturn (VInt st) fin /\ outb fin = []
+  end.
+Proof. exact read_int32_source. Qed.
+Print Assumptions C16_source_int32_reader.
+
+Theorem C16_source_int32_writer : forall v B, int_min <= v <= int_max -> 0 <= B ->
+  exists f0, forall f, (f0 <= f)%nat -> exists fin,
+    callE prog_env f prog_sbdf_write_int32 [tok; VInt v] [] B = OReturn (VInt (if 4 <=? B then SBDF_OK else SBDF_ERROR_IO)) fin /\
+    outb fin = ztake B (le32 v).
+Proof. exact write_int32_source. Qed.
+Print Assumptions C16_source_int32_writer.
